@@ -5,9 +5,12 @@
   effect when it was written), and the fixed fields are those given.
 -/
 import QV.Proofs.WriterShapeRun
+import QV.Proofs.WriterRdPos
 
 namespace QV.Writer
 open QV QV.Wire QV.Spec QV.ServerSafety
+
+variable {P : CMode → Prop}
 
 structure QItC where
   a : Nat
@@ -29,7 +32,9 @@ def QFacts (s : State) (it : QItC) : Prop :=
 def RFacts (s : State) (it : RItC) : Prop :=
   Item s it.a it.k ∧ NameIs s it.a it.m it.r.owner ∧
   BytesAt s.octets (it.a + it.k) (u16be it.r.ty ++ u16be it.r.cls ++ u32be it.r.ttl) ∧
-  be16 s.octets (it.a + it.k + 8) = it.rdlen
+  be16 s.octets (it.a + it.k + 8) = it.rdlen ∧
+  ∃ ts, componentTypes it.r.cls it.r.ty = some ts ∧
+    RdAt s it.m ts it.r.rdata (it.a + it.k + 10) (it.a + it.k + 10 + it.rdlen)
 
 def QChainC (s : State) : List QItC → Nat → Nat → Prop
   | [], p, e => p = e
@@ -63,7 +68,7 @@ theorem qchainC_move {s s' : State} {e lo : Nat}
     exact ⟨h1, hit x (by omega) (qchainC_le h3) h2, ih (by omega) h3⟩
 
 theorem rchainC_move {s s' : State} {e lo : Nat}
-    (hit : ∀ it : RItC, lo ≤ it.a → it.a + it.k + 10 ≤ e → RFacts s it → RFacts s' it) :
+    (hit : ∀ it : RItC, lo ≤ it.a → it.a + it.k + 10 + it.rdlen ≤ e → RFacts s it → RFacts s' it) :
     ∀ {rs : List RItC} {p : Nat}, lo ≤ p → RChainC s rs p e → RChainC s' rs p e := by
   intro rs
   induction rs with
@@ -102,12 +107,13 @@ theorem qfacts_frame {s s' : State} {it : QItC} {lo : Nat} (h : QFacts s it) (hl
   omega
 
 theorem rfacts_frame {s s' : State} {it : RItC} {lo : Nat} (h : RFacts s it) (hlo : lo ≤ it.a)
-    (hend : it.a + it.k + 10 ≤ s.cursor) (hg12 : ∀ g ∈ s.gLabels, lo ≤ g)
+    (hend : it.a + it.k + 10 + it.rdlen ≤ s.cursor) (hg12 : ∀ g ∈ s.gLabels, lo ≤ g)
     (hpre : ∀ i, lo ≤ i → i < s.cursor → s'.octets[i]? = s.octets[i]?) (hc : s.cursor ≤ s'.cursor)
     (hg : ∀ g ∈ s.gLabels, g ∈ s'.gLabels) : RFacts s' it := by
-  obtain ⟨h1, h2, h3, h4⟩ := h
+  obtain ⟨h1, h2, h3, h4, ts, hct, h5⟩ := h
   refine ⟨item_move (lo := lo) h1 hg12 (fun i a b => hpre i a (by have := h1.2.2; omega)) (by have := h1.2.2; omega)
-    (fun g hgm _ => hg g hgm), nameIs_frame h2 hg12 hpre hc hg, ?_, ?_⟩
+    (fun g hgm _ => hg g hgm), nameIs_frame h2 hg12 hpre hc hg, ?_, ?_,
+    ts, hct, rdAt_frame h5 (by omega) hend hg12 hpre hc hg⟩
   · refine bytesAt_frame h3 (fun i a b => hpre i (by omega) ?_)
     have : (u16be it.r.ty ++ u16be it.r.cls ++ u32be it.r.ttl).length = 8 := rfl
     omega
@@ -121,8 +127,9 @@ theorem qfacts_fields {s s' : State} {it : QItC} (h : QFacts s it) (ho : s'.octe
 
 theorem rfacts_fields {s s' : State} {it : RItC} (h : RFacts s it) (ho : s'.octets = s.octets)
     (hc : s'.cursor = s.cursor) (hg : s'.gLabels = s.gLabels) : RFacts s' it := by
-  obtain ⟨h1, h2, h3, h4⟩ := h
-  exact ⟨item_fields h1 ho hc hg, nameIs_fields h2 ho hc hg, by rw [ho]; exact h3, by rw [ho]; exact h4⟩
+  obtain ⟨h1, h2, h3, h4, ts, hct, h5⟩ := h
+  exact ⟨item_fields h1 ho hc hg, nameIs_fields h2 ho hc hg, by rw [ho]; exact h3, by rw [ho]; exact h4,
+    ts, hct, rdAt_fields h5 ho hc hg⟩
 
 theorem qchainC_ext {s s' : State} (e : Ext s s') {qs : List QItC} {p f : Nat} (hf : f ≤ s.cursor)
     (h : QChainC s qs p f) : QChainC s' qs p f :=
@@ -147,9 +154,23 @@ theorem rchainC_fields {s s' : State} (ho : s'.octets = s.octets) (hc : s'.curso
 
 /-- **the layout invariant with content**, for every compression mode: `b` = the questions and
     records given by the calls that succeeded -/
-structure CLay (s : State) (b : Body) : Prop where
-  q : ∃ qs, QChainC s qs 12 s.rrStart ∧ qs.map (·.q) = b.qs
-  r : s.cursor ≤ 65535 → ∃ rs, RChainC s rs s.rrStart s.cursor ∧ rs.map (·.r) = b.an ++ b.ns ++ b.ar
+structure MBody where
+  qs : List CMode := []
+  an : List CMode := []
+  ns : List CMode := []
+  ar : List CMode := []
+
+def MBody.add (mb : MBody) (sec : RrSection) (ms : List CMode) : MBody :=
+  match sec with
+  | .answer => { mb with an := mb.an ++ ms }
+  | .authority => { mb with ns := mb.ns ++ ms }
+  | .additional => { mb with ar := mb.ar ++ ms }
+
+/-- `mb`: the compression mode in effect when each question / record was written -/
+structure CLay (P : CMode → Prop) (s : State) (b : Body) (mb : MBody) : Prop where
+  q : ∃ qs, QChainC s qs 12 s.rrStart ∧ qs.map (·.q) = b.qs ∧ (∀ it ∈ qs, P it.m) ∧ qs.map (·.m) = mb.qs
+  r : s.cursor ≤ 65535 → ∃ rs, RChainC s rs s.rrStart s.cursor ∧ rs.map (·.r) = b.an ++ b.ns ++ b.ar ∧
+    (∀ it ∈ rs, P it.m) ∧ rs.map (·.m) = mb.an ++ mb.ns ++ mb.ar
   qd : s.qdcount = b.qs.length
   an : s.ancount = b.an.length
   ns : s.nscount = b.ns.length
@@ -157,22 +178,27 @@ structure CLay (s : State) (b : Body) : Prop where
   sq : s.sect = .question → s.cursor = s.rrStart ∧ b.an = [] ∧ b.ns = [] ∧ b.ar = []
   sa : s.sect = .answer → b.ns = [] ∧ b.ar = []
   su : s.sect = .authority → b.ar = []
+  /-- the mode in effect is one of the modes of the session -/
+  pm : P s.mode
+  ml : mb.an.length = b.an.length ∧ mb.ns.length = b.ns.length ∧ mb.ar.length = b.ar.length
 
-theorem clay_rr12 {s : State} {b : Body} (h : CLay s b) : 12 ≤ s.rrStart := by
+theorem clay_rr12 {s : State} {b : Body} {mb : MBody} (h : CLay P s b mb) : 12 ≤ s.rrStart := by
   obtain ⟨qs, hq, _⟩ := h.q
   exact qchainC_le hq
 
 /-- the layout only depends on the octets from 12 up to the cursor, the cursor, `rr_start`, the
     recorded label starts, the counts and the section -/
-theorem clay_congr {s s' : State} {b : Body} (h : CLay s b) (hw : WInv s) (hrr : s.rrStart ≤ s.cursor)
+theorem clay_congr {s s' : State} {b : Body} {mb : MBody} (h : CLay P s b mb) (hw : WInv s) (hrr : s.rrStart ≤ s.cursor)
     (hpre : ∀ i, 12 ≤ i → i < s.cursor → s'.octets[i]? = s.octets[i]?)
     (hc : s'.cursor = s.cursor) (hr : s'.rrStart = s.rrStart)
     (hg : ∀ g ∈ s.gLabels, g ∈ s'.gLabels)
     (hqd : s'.qdcount = s.qdcount) (han : s'.ancount = s.ancount) (hns : s'.nscount = s.nscount)
-    (har : s'.arcount = s.arcount) (hp : pend s' = pend s) (hs : s'.sect = s.sect) : CLay s' b := by
+    (har : s'.arcount = s.arcount) (hp : pend s' = pend s) (hs : s'.sect = s.sect)
+    (hmode : s'.mode = s.mode) : CLay P s' b mb := by
   have h12 := clay_rr12 h
   refine ⟨?_, ?_, by rw [hqd]; exact h.qd, by rw [han]; exact h.an, by rw [hns]; exact h.ns,
-    by rw [har, hp]; exact h.ar, by rw [hs, hc, hr]; exact h.sq, by rw [hs]; exact h.sa, by rw [hs]; exact h.su⟩
+    by rw [har, hp]; exact h.ar, by rw [hs, hc, hr]; exact h.sq, by rw [hs]; exact h.sa, by rw [hs]; exact h.su,
+    by rw [hmode]; exact h.pm, h.ml⟩
   · obtain ⟨qs, h1, h2⟩ := h.q
     refine ⟨qs, ?_, h2⟩
     rw [hr]
@@ -186,21 +212,24 @@ theorem clay_congr {s s' : State} {b : Body} (h : CLay s b) (hw : WInv s) (hrr :
     exact rchainC_move (lo := 12) (fun it hlo hk hq => rfacts_frame (lo := 12) hq hlo hk hw.g12 hpre
       (by omega) hg) h12 h1
 
-theorem clay_hdrOnly {s s' : State} {b : Body} (h : CLay s b) (hI : I s) (k : HdrOnly s s') : CLay s' b :=
+theorem clay_hdrOnly {s s' : State} {b : Body} {mb : MBody} (h : CLay P s b mb) (hI : I s) (k : HdrOnly s s') : CLay P s' b mb :=
   clay_congr h hI.winv hI.inv.rr_hi (fun i hi _ => k.pre i hi) k.cursor k.rrStart
-    (fun g hg => by rw [k.gl]; exact hg) k.qd k.an k.ns k.ar (pend_of_isSome k.edns k.tsig) k.sect
+    (fun g hg => by rw [k.gl]; exact hg) k.qd k.an k.ns k.ar (pend_of_isSome k.edns k.tsig) k.sect k.mode
 
-theorem clay_same {s s' : State} {b : Body} (h : CLay s b) (hI : I s) (e : Same s s') : CLay s' b :=
+theorem clay_same {s s' : State} {b : Body} {mb : MBody} (h : CLay P s b mb) (hI : I s) (e : Same s s') : CLay P s' b mb :=
   clay_congr h hI.winv hI.inv.rr_hi (fun i _ hi => e.pre i hi) e.cursor e.rrStart
     (fun g hg => by rw [e.gLabels]; exact hg) e.qd e.an e.ns e.ar
-    (by unfold pend; rw [e.edns, e.tsig]) e.sect
+    (by unfold pend; rw [e.edns, e.tsig]) e.sect e.mode
 
 /-- records appended to a laid-out message -/
-theorem clay_add_records {s s0 s1 s' : State} {b : Body} {sec : RrSection} {recs : List RRec}
-    (h : CLay s b) (hcs : changeSection sec s = (.ok (), s0)) (e : Ext s s1)
-    (hch : s1.cursor ≤ 65535 → ∃ its, RChainC s1 its s.cursor s1.cursor ∧ its.map (·.r) = recs)
+theorem clay_add_records {s s0 s1 s' : State} {b : Body} {mb : MBody} {sec : RrSection} {recs : List RRec}
+    (h : CLay P s b mb) (hcs : changeSection sec s = (.ok (), s0)) (e : Ext s s1)
+    (hch : s1.cursor ≤ 65535 → ∃ its, RChainC s1 its s.cursor s1.cursor ∧ its.map (·.r) = recs ∧
+      ∀ it ∈ its, it.m = s.mode)
     (hs' : s' = (setCount sec (getCount sec s1 + recs.length) s1).2) (hsect : s1.sect = toSect sec)
-    (hrr : s.rrStart ≤ s.cursor) : CLay s' (b.add sec recs) := by
+    (hrr : s.rrStart ≤ s.cursor) (ms : List CMode) (hms : ms = List.replicate recs.length s.mode) :
+    CLay P s' (b.add sec recs) (mb.add sec ms) := by
+  subst hms
   obtain ⟨_, hA, hB⟩ := changeSection_ok_inv sec s s0 hcs
   have hp1 : pend s1 = pend s := by unfold pend; rw [e.edns, e.tsig]
   have ho : s'.octets = s1.octets := by rw [hs']; cases sec <;> rfl
@@ -228,19 +257,57 @@ theorem clay_add_records {s s0 s1 s' : State} {b : Body} {sec : RrSection} {recs
         | additional => exact absurd hsx hne
       simp [Body.add, this]
     | additional => simp [Body.add]
-  refine ⟨?_, ?_, ?_, ?_, ?_, ?_, ?_, ?_, ?_⟩
-  · obtain ⟨qs, h1, h2⟩ := h.q
-    refine ⟨qs, ?_, by cases sec <;> exact h2⟩
+  have hmd : s'.mode = s.mode := by
+    rw [hs', ← e.mode]; cases sec <;> rfl
+  obtain ⟨ml1, ml2, ml3⟩ := h.ml
+  have hnil : ∀ {l : List CMode} {l' : List RRec}, l.length = l'.length → l' = [] → l = [] := by
+    intro l l' hl hn; rw [hn] at hl; exact List.eq_nil_of_length_eq_zero hl
+  have hmlater : ∀ ms, (mb.add sec ms).an ++ (mb.add sec ms).ns ++ (mb.add sec ms).ar =
+      mb.an ++ mb.ns ++ mb.ar ++ ms := by
+    intro ms
+    cases sec with
+    | answer =>
+      have : b.ns = [] ∧ b.ar = [] := by
+        rcases hA rfl with h1 | h1
+        · exact ⟨(h.sq h1).2.2.1, (h.sq h1).2.2.2⟩
+        · exact h.sa h1
+      simp [MBody.add, hnil ml2 this.1, hnil ml3 this.2]
+    | authority =>
+      have : b.ar = [] := by
+        have hne := hB rfl
+        cases hsx : s.sect with
+        | question => exact (h.sq hsx).2.2.2
+        | answer => exact (h.sa hsx).2
+        | authority => exact h.su hsx
+        | additional => exact absurd hsx hne
+      simp [MBody.add, hnil ml3 this]
+    | additional => simp [MBody.add]
+  refine ⟨?_, ?_, ?_, ?_, ?_, ?_, ?_, ?_, ?_, by rw [hmd]; exact h.pm, ?_⟩
+  · obtain ⟨qs, h1, h2, hP, hM⟩ := h.q
+    refine ⟨qs, ?_, by cases sec <;> exact h2, hP, by cases sec <;> exact hM⟩
     rw [hr, e.rrStart]
     exact qchainC_fields ho hc hg (qchainC_ext e hrr h1)
   · intro hle
     rw [hc] at hle
     have hle0 : s.cursor ≤ 65535 := by have := e.cur; omega
-    obtain ⟨rs, h1, h2⟩ := h.r hle0
-    obtain ⟨its, h3, h4⟩ := hch hle
-    refine ⟨rs ++ its, ?_, by rw [List.map_append, h2, h4, hlater]⟩
-    rw [hr, hc, e.rrStart]
-    exact rchainC_fields ho hc hg (rchainC_append (rchainC_ext e (Nat.le_refl _) h1) h3)
+    obtain ⟨rs, h1, h2, hP, hM⟩ := h.r hle0
+    obtain ⟨its, h3, h4, hP2⟩ := hch hle
+    refine ⟨rs ++ its, ?_, by rw [List.map_append, h2, h4, hlater], fun it hx => ?_, ?_⟩
+    · rw [hr, hc, e.rrStart]
+      exact rchainC_fields ho hc hg (rchainC_append (rchainC_ext e (Nat.le_refl _) h1) h3)
+    · rcases List.mem_append.mp hx with hx | hx
+      · exact hP it hx
+      · rw [hP2 it hx]; exact h.pm
+    · rw [List.map_append, hM, hmlater]
+      congr 1
+      have hl : its.length = recs.length := by rw [← h4, List.length_map]
+      rw [← hl]
+      clear h3 h4 hl
+      induction its with
+      | nil => rfl
+      | cons x xs ih =>
+        rw [List.map_cons, List.length_cons, List.replicate_succ, hP2 x List.mem_cons_self,
+          ih (fun it hx => hP2 it (List.mem_cons_of_mem _ hx))]
   · rw [hs']; cases sec <;> (show s1.qdcount = _; rw [e.qd]; exact h.qd)
   · rw [hs']
     cases sec with
@@ -284,5 +351,511 @@ theorem clay_add_records {s s0 s1 s' : State} {b : Body} {sec : RrSection} {recs
       | authority => exact h.su hsx
       | additional => exact absurd hsx hne
     | additional => cases hq
+  · cases sec <;> simp [MBody.add, Body.add, ml1, ml2, ml3]
+
+
+/-! ### records -/
+
+theorem rchainC_one {s s' : State} {k : Nat} {m : CMode} {r : RRec} {ts : List CompType} (hit : Item s' s.cursor k)
+    (hnm : NameIs s' s.cursor m r.owner)
+    (hf : BytesAt s'.octets (s.cursor + k) (u16be r.ty ++ u16be r.cls ++ u32be r.ttl))
+    (hlen : s.cursor + k + 10 ≤ s'.cursor)
+    (hb : be16 s'.octets (s.cursor + k + 8) = (s'.cursor - (s.cursor + k + 10)) % 65536)
+    (hle : s'.cursor ≤ 65535) (hct : componentTypes r.cls r.ty = some ts)
+    (hrd : RdAt s' m ts r.rdata (s.cursor + k + 10) s'.cursor) :
+    RChainC s' [⟨s.cursor, k, s'.cursor - (s.cursor + k + 10), m, r⟩] s.cursor s'.cursor := by
+  refine ⟨rfl, ⟨hit, hnm, hf, ?_, ts, hct, ?_⟩, ?_⟩
+  · show be16 s'.octets (s.cursor + k + 8) = _
+    rw [hb, Nat.mod_eq_of_lt (by omega)]
+  · show RdAt s' m ts r.rdata (s.cursor + k + 10) (s.cursor + k + 10 + (s'.cursor - (s.cursor + k + 10)))
+    rw [show s.cursor + k + 10 + (s'.cursor - (s.cursor + k + 10)) = s'.cursor by omega]
+    exact hrd
+  · show s.cursor + k + 10 + (s'.cursor - (s.cursor + k + 10)) = s'.cursor
+    omega
+
+theorem bytesAt_three {o : Bytes} {p : Nat} {a b c : List UInt8} (h1 : BytesAt o p a)
+    (h2 : BytesAt o (p + a.length) b) (h3 : BytesAt o (p + a.length + b.length) c) :
+    BytesAt o p (a ++ b ++ c) :=
+  bytesAt_append_intro (bytesAt_append_intro h1 h2) (by rw [List.length_append, ← Nat.add_assoc]; exact h3)
+
+/-- one record, with content -/
+theorem addRr_itemC (hint : Hint) (owner : WName) (ty cls ttl : Nat) (rd : List UInt8) (s s' : State)
+    (hw : WInv s) (hl : PtrLogOK s) (hwf : owner.WF) (hh : HintOK s hint owner)
+    (h : addRr hint owner ty cls ttl rd s = (.ok (), s')) (hle : s'.cursor ≤ 65535) :
+    ∃ it : RItC, RChainC s' [it] s.cursor s'.cursor ∧ it.r = ⟨owner, ty, cls, ttl, rd⟩ ∧ it.m = s.mode := by
+  obtain ⟨k, hit, hlen, hb, ⟨t1, t2, t3⟩, ⟨p, sB, hwn, hcB, _⟩, hnm⟩ :=
+    addRr_item hint owner ty cls ttl rd s s' hw hwf hh h
+  obtain ⟨ts, k', hct, hrd, p', sB', hwn', hcB'⟩ := addRr_rd hint owner ty cls ttl rd s s' hw hl hwf hh h
+  have hk : k' = k := by
+    rw [hwn] at hwn'
+    simp only [Prod.mk.injEq, Out.ok.injEq] at hwn'
+    rw [← hwn'.2, hcB] at hcB'
+    omega
+  subst hk
+  have hl2 : ∀ x, (u16be x).length = 2 := fun _ => rfl
+  refine ⟨⟨s.cursor, k', s'.cursor - (s.cursor + k' + 10), s.mode, ⟨owner, ty, cls, ttl, rd⟩⟩, ?_, rfl, rfl⟩
+  exact rchainC_one (r := ⟨owner, ty, cls, ttl, rd⟩) hit hnm
+    (bytesAt_three t1 (by rw [hl2]; exact t2) (by rw [hl2, hl2]; exact t3)) hlen hb hle hct hrd
+
+/-- **`add_*_rr` keeps the layout**, and the record is the one given -/
+theorem clay_addRrOp (sec : RrSection) (hint : Hint) (owner : WName) (ty cls ttl : Nat) (rd : List UInt8)
+    (s s' : State) {b : Body} {mb : MBody} (hI : I s) (h : CLay P s b mb) (hwf : owner.WF) (hh : HintOK s hint owner)
+    (hok : addRrOp sec hint owner ty cls ttl rd s = (.ok (), s')) :
+    CLay P s' (b.add sec [⟨owner, ty, cls, ttlFrom ttl, rd⟩]) (mb.add sec [s.mode]) := by
+  obtain ⟨s1, s2, h1, h2, _, hs'⟩ := addRrOp_ok_inv sec hint owner ty cls ttl rd s s' hok
+  obtain ⟨c1, c2, c3, c4, c5, c6, c7⟩ := changeSection_spec sec s
+  have hfr1 := frame_changeSection sec s
+  rw [h1] at hfr1 c2 c3 c4 c5 c6 c7
+  simp only at hfr1 c2 c3 c4 c5 c6 c7
+  have w1 : WInv s1 := winv_ext hI.winv hfr1 c7 c3 c4 c5
+  have hh1 : HintOK s1 hint owner := hintOK_ext hh hfr1 c3 c4 c5 c6
+  have e2 : Ext s1 s2 := by
+    have := frame_addRr hint owner ty cls (ttlFrom ttl) rd s1
+    rw [h2] at this; exact this
+  have hsect : s2.sect = toSect sec := by
+    have := (changeSection_ok_inv sec s s1 h1).1
+    have hk := keepsSect_addRr hint owner ty cls (ttlFrom ttl) rd s1
+    rw [h2] at hk
+    rw [hk, this]
+  refine clay_add_records (recs := [⟨owner, ty, cls, ttlFrom ttl, rd⟩]) h h1 (Ext.trans hfr1 e2) ?_ hs' hsect
+    hI.inv.rr_hi _ rfl
+  intro hle
+  have hl1 : PtrLogOK s1 := ptrLog_ext hI.log hfr1 (by
+    have := changeSection_gPtrs sec s; rw [h1] at this; exact this)
+  obtain ⟨it, hch, hr, hm⟩ := addRr_itemC hint owner ty cls (ttlFrom ttl) rd s1 s2 w1 hl1 hwf hh1 h2 hle
+  rw [c6] at hch
+  refine ⟨[it], hch, by simp [hr], fun x hx => ?_⟩
+  simp only [List.mem_singleton] at hx
+  subst hx
+  rw [hm, hfr1.mode]
+
+/-- an RRset, with content: one item per RDATA -/
+theorem addRrset_itemsC {track : Prop} {s0 : State} (owner : WName) (ty cls ttl : Nat) (hwf : owner.WF) :
+    ∀ (rds : List (List UInt8)) (hint : Hint) (n : Nat) (names : List WName) (on0 : Option WName)
+      (s s' : State) (cnt : Nat),
+      (∃ loc o, RecSt track s0 s names loc o on0 ∧ HintOK s hint owner) →
+      addRrset hint owner ty cls ttl rds n s = (.ok cnt, s') → s'.cursor ≤ 65535 →
+      ∃ its, RChainC s' its s.cursor s'.cursor ∧
+        its.map (·.r) = rds.map (fun rd => (⟨owner, ty, cls, ttl, rd⟩ : RRec)) ∧ ∀ it ∈ its, it.m = s.mode := by
+  intro rds
+  induction rds with
+  | nil =>
+    intro hint n names on0 s s' cnt _ h _
+    simp only [addRrset, M.pure_apply] at h
+    cases h
+    exact ⟨[], rfl, rfl, fun _ hx => by cases hx⟩
+  | cons rd rds ih =>
+    intro hint n names on0 s s' cnt ⟨loc, o, hrec, hh⟩ h hle
+    unfold addRrset at h
+    obtain ⟨_, s1, h1, h2⟩ := M.bind_ok_inv h
+    obtain ⟨_, hok⟩ := sp_addRr (track := track) (s0 := s0) (names := names) hint owner ty cls ttl rd hwf s
+      ⟨loc, o, on0, hrec, hh⟩
+    obtain ⟨p, hrec1⟩ := hok () s1 h1
+    have e2 : Ext s1 s' := by
+      have := frame_addRrset .mostRecentOwner owner ty cls ttl rds (n + 1) s1
+      rw [h2] at this; exact this
+    have hle1 : s1.cursor ≤ 65535 := by have := e2.cur; omega
+    obtain ⟨it, hch1, hr1, hm1⟩ := addRr_itemC hint owner ty cls ttl rd s s1 hrec.winv hrec.log hwf hh h1 hle1
+    obtain ⟨its, hch, hl, hms⟩ := ih .mostRecentOwner (n + 1) (names ++ rdataNames cls ty rd) (some owner) s1 s' cnt
+      ⟨_, p, hrec1, recSt_ownerHint hrec1⟩ h2 hle
+    have e1 : Ext s s1 := by
+      have := frame_addRr hint owner ty cls ttl rd s
+      rw [h1] at this; exact this
+    refine ⟨it :: its, rchainC_append (rchainC_ext e2 (Nat.le_refl _) hch1) hch, by simp [hr1, hl], fun x hx => ?_⟩
+    simp only [List.mem_cons] at hx
+    rcases hx with rfl | hx
+    · exact hm1
+    · rw [hms x hx, e1.mode]
+
+/-- **`add_*_rrset` keeps the layout**, and the records are those given -/
+theorem clay_addRrsetOp (sec : RrSection) (hint : Hint) (owner : WName) (ty cls ttl : Nat)
+    (rds : List (List UInt8)) (s s' : State) {b : Body} {mb : MBody} (hI : I s) (h : CLay P s b mb) (hwf : owner.WF)
+    (hh : HintOK s hint owner)
+    (hok : addRrsetOp sec hint owner ty cls ttl rds s = (.ok (), s')) :
+    CLay P s' (b.add sec (rds.map fun rd => ⟨owner, ty, cls, ttlFrom ttl, rd⟩))
+      (mb.add sec (List.replicate rds.length s.mode)) := by
+  obtain ⟨s1, s2, n, h1, h2, _, hs'⟩ := addRrsetOp_ok_inv sec hint owner ty cls ttl rds s s' hok
+  obtain ⟨c1, c2, c3, c4, c5, c6, c7⟩ := changeSection_spec sec s
+  have hfr1 := frame_changeSection sec s
+  have hgp := changeSection_gPtrs sec s
+  rw [h1] at hfr1 c2 c3 c4 c5 c6 c7 hgp
+  simp only at hfr1 c2 c3 c4 c5 c6 c7 hgp
+  have w1 : WInv s1 := winv_ext hI.winv hfr1 c7 c3 c4 c5
+  have hh1 : HintOK s1 hint owner := hintOK_ext hh hfr1 c3 c4 c5 c6
+  have r0 := recSt_init hI.winv hI.log
+  have hr1 : RecSt (s.hv = some []) s s1 [] [] s.mostRecentOwner none :=
+    recSt_step r0 hfr1 w1 c2 c5 c4 c3 hgp
+  have hn := addRrset_count owner ty cls (ttlFrom ttl) rds hint 0 s1 s2 n h2
+  have e2 : Ext s1 s2 := by
+    have := frame_addRrset hint owner ty cls (ttlFrom ttl) rds 0 s1
+    rw [h2] at this; exact this
+  have hsect : s2.sect = toSect sec := by
+    have := (changeSection_ok_inv sec s s1 h1).1
+    have hk := keepsSect_addRrset owner ty cls (ttlFrom ttl) rds hint 0 s1
+    rw [h2] at hk
+    rw [hk, this]
+  refine clay_add_records (recs := rds.map fun rd => ⟨owner, ty, cls, ttlFrom ttl, rd⟩) h h1 (Ext.trans hfr1 e2)
+    ?_ (by rw [hs', List.length_map, hn]; simp) hsect hI.inv.rr_hi _ (by rw [List.length_map])
+  intro hle
+  obtain ⟨its, hch, hl, hms⟩ := addRrset_itemsC (track := s.hv = some []) (s0 := s) owner ty cls (ttlFrom ttl) hwf rds
+    hint 0 [] none s1 s2 n ⟨[], _, hr1, hh1⟩ h2 hle
+  rw [c6] at hch
+  exact ⟨its, hch, hl, fun x hx => by rw [hms x hx, hfr1.mode]⟩
+
+
+/-! ### the question and the other calls -/
+
+theorem clay_addQuestion (qn : WName) (qt qc : Nat) (s s' : State) {b : Body} {mb : MBody} (hI : I s) (h : CLay P s b mb)
+    (hwf : qn.WF) (hok : addQuestion qn qt qc s = (.ok (), s')) :
+    CLay P s' { b with qs := b.qs ++ [⟨qn, qt, qc⟩] } { mb with qs := mb.qs ++ [s.mode] } := by
+  obtain ⟨s3, hsq, hb, hs'⟩ := addQuestion_ok_inv qn qt qc s s' hok
+  obtain ⟨k, hit, hcur, hnm, hby⟩ := addQuestionBody_item qn qt qc s s3 hI.winv hwf hb
+  have e : Ext s s3 := by
+    have := frame_addQuestionBody qn qt qc s
+    rw [hb] at this; exact this
+  obtain ⟨hcr, hban, hbns, hbar⟩ := h.sq hsq
+  have hk := keepsSect_addQuestionBody qn qt qc s
+  rw [hb] at hk
+  simp only at hk
+  have ho : s'.octets = s3.octets := by rw [hs']
+  have hc : s'.cursor = s3.cursor := by rw [hs']
+  have hg : s'.gLabels = s3.gLabels := by rw [hs']
+  have hp : pend s' = pend s := by rw [hs']; unfold pend; show _ = _; rw [e.edns, e.tsig]
+  obtain ⟨ml1, ml2, ml3⟩ := h.ml
+  have hnil : ∀ {l : List CMode} {l' : List RRec}, l.length = l'.length → l' = [] → l = [] := by
+    intro l l' hl hn; rw [hn] at hl; exact List.eq_nil_of_length_eq_zero hl
+  refine ⟨?_, ?_, ?_, ?_, ?_, ?_, ?_, ?_, ?_, by rw [hs']; show P s3.mode; rw [e.mode]; exact h.pm, h.ml⟩
+  · obtain ⟨qs, h1, h2, hP, hM⟩ := h.q
+    refine ⟨qs ++ [⟨s.cursor, k, s.mode, ⟨qn, qt, qc⟩⟩], ?_, by rw [List.map_append, h2]; rfl, fun x hx => by
+      rcases List.mem_append.mp hx with hx | hx
+      · exact hP x hx
+      · simp only [List.mem_singleton] at hx; subst hx; exact h.pm, by rw [List.map_append, hM]; rfl⟩
+    have hq3 : QChainC s3 qs 12 s.cursor := by
+      rw [hcr]; exact qchainC_ext e hI.inv.rr_hi h1
+    have := qchainC_snoc (x := ⟨s.cursor, k, s.mode, ⟨qn, qt, qc⟩⟩) hq3 ⟨hit, hnm, hby⟩
+    have hrs : s'.rrStart = s.cursor + k + 4 := by rw [hs']; exact hcur
+    rw [hrs]
+    exact qchainC_fields ho hc hg this
+  · intro hle
+    refine ⟨[], ?_, by rw [hban, hbns, hbar]; rfl, (fun _ hx => by cases hx), by
+      show [] = mb.an ++ mb.ns ++ mb.ar
+      rw [hnil ml1 hban, hnil ml2 hbns, hnil ml3 hbar]; rfl⟩
+    rw [hs']; exact rfl
+  · rw [hs']; show s3.qdcount + 1 = _; rw [e.qd, h.qd, List.length_append]; rfl
+  · rw [hs']; show s3.ancount = _; rw [e.an]; exact h.an
+  · rw [hs']; show s3.nscount = _; rw [e.ns]; exact h.ns
+  · rw [hp, hs']; show s3.arcount = _; rw [e.ar]; exact h.ar
+  · intro _; rw [hs']; exact ⟨rfl, hban, hbns, hbar⟩
+  · intro _; exact ⟨hbns, hbar⟩
+  · intro _; exact hbar
+
+theorem clay_counts {s s' : State} {b : Body} {mb : MBody} (h : CLay P s b mb) (ho : s'.octets = s.octets)
+    (hc : s'.cursor = s.cursor) (hg : s'.gLabels = s.gLabels) (hr : s'.rrStart = s.rrStart)
+    (hqd : s'.qdcount = s.qdcount) (han : s'.ancount = s.ancount) (hns : s'.nscount = s.nscount)
+    (hs : s'.sect = s.sect) {d : Nat} (hp : pend s' = pend s + d) (har : s'.arcount = s.arcount + d)
+    (hm : P s'.mode) : CLay P s' b mb := by
+  refine ⟨?_, ?_, by rw [hqd]; exact h.qd, by rw [han]; exact h.an, by rw [hns]; exact h.ns,
+    by rw [har, hp, h.ar]; omega, by rw [hs, hc, hr]; exact h.sq, by rw [hs]; exact h.sa, by rw [hs]; exact h.su, hm,
+    h.ml⟩
+  · obtain ⟨qs, h1, h2⟩ := h.q
+    exact ⟨qs, by rw [hr]; exact qchainC_fields ho hc hg h1, h2⟩
+  · intro hle
+    rw [hc] at hle
+    obtain ⟨rs, h1, h2⟩ := h.r hle
+    exact ⟨rs, by rw [hr, hc]; exact rchainC_fields ho hc hg h1, h2⟩
+
+theorem clay_setEdns (p : Nat) (s : State) {b : Body} {mb : MBody} (h : CLay P s b mb) : CLay P (setEdns p s).2 b mb := by
+  unfold setEdns
+  repeat' split
+  all_goals first
+    | exact h
+    | skip
+  rename_i h1 h2 h3
+  have hn : s.edns = none := by cases he : s.edns <;> simp_all
+  refine clay_counts (d := 1) h rfl rfl rfl rfl rfl rfl rfl rfl ?_ rfl h.pm
+  unfold pend; simp [hn]; omega
+
+theorem clay_setTsig (m : TsigMode) (rr : TsigRr) (s : State) {b : Body} {mb : MBody} (h : CLay P s b mb) :
+    CLay P (setTsig m rr s).2 b mb := by
+  unfold setTsig
+  repeat' split
+  all_goals first
+    | exact h
+    | skip
+  rename_i h1 h2 h3
+  have hn : s.tsig = none := by cases he : s.tsig <;> simp_all
+  refine clay_counts (d := 1) h rfl rfl rfl rfl rfl rfl rfl rfl ?_ rfl h.pm
+  unfold pend; simp [hn]
+
+theorem clay_setMode (m : CMode) (s : State) {b : Body} {mb : MBody} (h : CLay P s b mb) (hm : P m) :
+    CLay P (setCompressionMode m s).2 b mb :=
+  clay_counts (d := 0) h rfl rfl rfl rfl rfl rfl rfl rfl rfl rfl hm
+
+theorem clay_hv (s : State) (v : Option HV) {b : Body} {mb : MBody} (h : CLay P s b mb) : CLay P { s with hv := v } b mb :=
+  clay_counts (d := 0) h rfl rfl rfl rfl rfl rfl rfl rfl rfl rfl h.pm
+
+/-- a fresh writer, put into mode `m` -/
+theorem clay_new (buf : Bytes) (limit : Nat) (s : State) (h : Writer.new buf limit = .ok s) (m : CMode)
+    (hm : P m) : CLay P { s with mode := m } {} {} := by
+  suffices hh : CLay (fun _ => True) s {} {} by
+    refine ⟨?_, ?_, hh.qd, hh.an, hh.ns, hh.ar, hh.sq, hh.sa, hh.su, hm, ⟨rfl, rfl, rfl⟩⟩
+    · obtain ⟨qs, h1, h2, _⟩ := hh.q
+      have : qs = [] := by simpa using h2
+      subst this
+      exact ⟨[], h1, rfl, (fun _ hx => by cases hx), rfl⟩
+    · intro hle
+      obtain ⟨rs, h1, h2, _⟩ := hh.r hle
+      have : rs = [] := by simpa using h2
+      subst this
+      exact ⟨[], h1, rfl, (fun _ hx => by cases hx), rfl⟩
+  unfold Writer.new at h
+  dsimp only at h
+  split at h
+  · cases h
+  · have hs := Out.ok.inj h
+    have h1 : s.rrStart = 12 := by rw [← hs]; rfl
+    have h2 : s.cursor = 12 := by rw [← hs]; rfl
+    have h3 : s.qdcount = 0 ∧ s.ancount = 0 ∧ s.nscount = 0 ∧ s.arcount = 0 ∧ s.edns = none ∧ s.tsig = none := by
+      rw [← hs]; exact ⟨rfl, rfl, rfl, rfl, rfl, rfl⟩
+    refine ⟨⟨[], by rw [h1]; rfl, rfl, (fun _ hx => by cases hx), rfl⟩,
+      fun _ => ⟨[], by rw [h1, h2]; rfl, rfl, (fun _ hx => by cases hx), rfl⟩, h3.1, h3.2.1, h3.2.2.1, ?_,
+      fun _ => ⟨by rw [h1, h2], rfl, rfl, rfl⟩, fun _ => ⟨rfl, rfl⟩, fun _ => rfl, trivial, ⟨rfl, rfl, rfl⟩⟩
+    unfold pend
+    rw [h3.2.2.2.1, h3.2.2.2.2.1, h3.2.2.2.2.2]
+    rfl
+
+
+/-! ### `clear_rrs` -/
+
+/-- the hop at an item reads inside the item's chunk -/
+theorem hop_shrink {oct : Bytes} {cur c' a k q : Nat} (hop : Hop oct cur a q) (hck : ChunkAt oct a k)
+    (hc : a + k ≤ c') : Hop oct c' a q := by
+  obtain ⟨pre, b, hwf, hb, hkk⟩ := hck
+  have hlen : (pre.flatMap WName.encLabel ++ [b]).length = encLen pre + 1 := by simp [encLen]
+  have hk1 : 1 ≤ k := by rcases hkk with ⟨_, e⟩ | ⟨_, e⟩ <;> omega
+  cases hop with
+  | here hq' hb' hnp => exact .here (by omega) hb' hnp
+  | jump hq' h1 h2 hp hlt h3 hnp =>
+    have h0 := hb 0 (by rw [hlen]; omega)
+    rw [Nat.add_zero, h1] at h0
+    have hk2 : 2 ≤ k := by
+      rcases hkk with ⟨hb0, _⟩ | ⟨_, e⟩
+      · exfalso
+        cases pre with
+        | nil =>
+          simp at h0; subst h0
+          rw [hb0] at hp; exact absurd hp (by decide)
+        | cons l pre' =>
+          simp [WName.encLabel] at h0
+          have hl := hwf l List.mem_cons_self
+          subst h0
+          rw [ofNat_len_notPtr hl.2] at hp; cases hp
+      · omega
+    exact .jump (by omega) h1 h2 hp hlt h3 hnp
+
+theorem clay_clearRrs (s : State) {b : Body} {mb : MBody} (h : CLay P s b mb) (hI : I s) :
+    CLay P (clearRrs s).2 { qs := b.qs } { qs := mb.qs } := by
+  simp only [clearRrs, M.modify_apply]
+  have hrr := hI.inv.rr_hi
+  have hG : ∀ x, (GL s x ∧ x < s.rrStart) → x ∈ s.gLabels.filter (· < s.rrStart) := by
+    intro x ⟨h1, h2⟩
+    simp only [List.mem_filter, decide_eq_true_eq]
+    exact ⟨h1, h2⟩
+  refine ⟨?_, fun _ => ⟨[], rfl, rfl, (fun _ hx => by cases hx), rfl⟩, h.qd, rfl, rfl, ?_, fun _ => ⟨rfl, rfl, rfl, rfl⟩,
+    fun _ => ⟨rfl, rfl⟩, fun _ => rfl, h.pm, ⟨rfl, rfl, rfl⟩⟩
+  · obtain ⟨qs, h1, h2⟩ := h.q
+    refine ⟨qs, ?_, h2⟩
+    show QChainC _ qs 12 s.rrStart
+    refine qchainC_move (lo := 0) (e := s.rrStart) (fun it _ hk hq => ?_) (Nat.zero_le _) h1
+    obtain ⟨hit, hnm, hby⟩ := hq
+    have hgl : ∀ g ∈ s.gLabels, g ≤ it.a → g ∈ s.gLabels.filter (· < s.rrStart) := by
+      intro g hg hga
+      simp only [List.mem_filter, decide_eq_true_eq]
+      exact ⟨hg, by omega⟩
+    refine ⟨item_move (lo := 0) hit (fun _ _ => Nat.zero_le _) (fun _ _ _ => rfl)
+      (by show it.a + it.k ≤ s.rrStart; omega) hgl, ?_, hby⟩
+    obtain ⟨q, ls, hop, hst, hm⟩ := hnm
+    have hqa := (hop_le hop).1
+    have hqg : q ∈ s.gLabels := (nameAt_start hst).1
+    obtain ⟨ls', hl'⟩ := hI.qinv.labs q hqg (by omega)
+    have := nameAt_unique hl' hst
+    subst this
+    refine ⟨q, ls', hop_shrink hop hit.2.1 (by show it.a + it.k ≤ s.rrStart; omega), ?_, hm⟩
+    exact nameAt_frame (lo := 0) (nameAt_restrict hl') hG (fun _ _ => Nat.zero_le _) (fun _ _ _ => rfl)
+      (Nat.le_refl _)
+  · show _ = ([] : List RRec).length + pend _
+    unfold pend
+    simp
+
+
+/-! ### templates, whole sessions -/
+
+theorem clay_template {s s' : State} {b : Body} {mb : MBody} {t : Template} (h : CLay P s b mb) (hI : I s) (buf : Bytes)
+    (ts : Option Tsig) (hsome : ts.isSome = s.tsig.isSome)
+    (ht : intoTemplate s = .ok t) (h' : tryFromTemplateImpl buf t ts = .ok s') : CLay P s' b mb := by
+  have hi := hI.inv
+  have h1 := hi.hdr; have h2 := hi.cur_av; have h3 := hi.av_lim; have h4 := hi.lim_size
+  unfold intoTemplate at ht
+  rw [if_neg (by omega), if_neg (by omega)] at ht
+  cases ht
+  unfold tryFromTemplateImpl at h'
+  simp only [extract_toList_length _ _ (show s.cursor ≤ s.octets.size by omega)] at h'
+  split at h'
+  · cases h'
+  · split at h'
+    · cases h'
+    · cases h'
+      refine clay_congr h hI.winv hi.rr_hi ?_ rfl rfl (fun _ hg => hg) rfl rfl rfl rfl ?_ rfl rfl
+      · intro i _ hi'
+        have := writeAt_get_in buf 0 (List.take s.cursor s.octets.toList) i (by simp; omega) (by simp; omega)
+        simp only [Nat.zero_add] at this
+        simp only [Array.toList_extract, List.extract_eq_take_drop, Nat.sub_zero, List.drop_zero]
+        rw [this, List.getElem?_take]
+        simp [hi']
+      · unfold pend
+        show _ + (if ts.isSome then 1 else 0) = _
+        rw [hsome]
+
+theorem clay_retemplate {ss : Session} {b : Body} {mb : MBody} (h : CLay P ss.w b mb) (hI : I ss.w) (n : Nat) (fill : UInt8)
+    (mk : Bytes → Template → Out WriterErr State) (hmk : MkOK mk) :
+    CLay P (retemplate ss n fill mk).2.w b mb := by
+  obtain ⟨t, ht⟩ := intoTemplate_ok hI.inv
+  have htt := intoTemplate_tsig ht
+  unfold retemplate
+  rw [ht]
+  simp only []
+  obtain ⟨sf, hsf⟩ := tryFromTemplate_fallback_ok fill hI.inv ht
+  have hlf : CLay P sf b mb := clay_template h hI _ t.tsig (by rw [htt]) ht hsf
+  cases hm : mk (Array.replicate n fill) t with
+  | ok s' =>
+    simp only []
+    obtain ⟨ts, h1, h2⟩ := hmk.1 _ _ _ hm
+    refine clay_template h hI _ ts ?_ ht h1
+    rcases h2 with he | ⟨ts0, ts1, h0, h1', _⟩
+    · rw [he, htt]
+    · rw [h1', ← htt, h0]; rfl
+  | err e => simp only []; rw [hsf]; exact hlf
+  | panic => simp only []; rw [hsf]; exact hlf
+
+theorem clay_liftW {ss : Session} {f : M Unit} {b : Body} {mb : MBody} (h : CLay P (f ss.w).2 b mb) : CLay P (liftW ss f).2.w b mb := by
+  unfold liftW
+  cases hf : f ss.w with
+  | mk r s1 => rw [hf] at h; exact h
+
+/-- the modes of the items a successful call adds: the mode in effect (`cur`) -/
+def mbodyStep (cur : CMode) (mb : MBody) : Op → MBody
+  | .addQuestion _ _ _ => { mb with qs := mb.qs ++ [cur] }
+  | .addRr sec _ _ _ _ _ _ _ => mb.add sec [cur]
+  | .addRrset sec _ _ _ _ _ rds _ => mb.add sec (List.replicate rds.length cur)
+  | .clearRrs => { qs := mb.qs }
+  | _ => mb
+
+/-- the compression mode in effect when each question / record of a session was written (the
+    writer's mode is changed by `set_compression_mode` only) -/
+def mrun (ss : Session) (mb : MBody) : List Op → MBody
+  | [] => mb
+  | op :: ops => mrun (step ss op).2 (if (step ss op).1 = .ok () then mbodyStep ss.w.mode mb op else mb) ops
+
+/-- **every public call keeps the layout**: a successful call adds exactly what it was given, a
+    failed call changes nothing — in every compression mode -/
+theorem clay_step (ss : Session) (op : Op) (b : Body) (mb : MBody) (hI : I ss.w) (h : CLay P ss.w b mb)
+    (hop : OpOK ss op) (hpm : ∀ m, op = .setMode m → P m) :
+    CLay P (step ss op).2.w (if (step ss op).1 = .ok () then bodyStep b op else b)
+      (if (step ss op).1 = .ok () then mbodyStep ss.w.mode mb op else mb) := by
+  have hnp := (step_I ss op hI hop).1
+  -- failed calls: nothing changed
+  by_cases herr : ∃ e, (step ss op).1 = .err e
+  · obtain ⟨e, he⟩ := herr
+    rw [he]
+    simp only [reduceCtorEq, if_false]
+    exact clay_same h hI (step_err_same ss op hI.inv e he)
+  have hok : (step ss op).1 = .ok () := by
+    cases hr : (step ss op).1 with
+    | ok u => rfl
+    | err e => exact absurd ⟨e, hr⟩ herr
+    | panic => exact absurd hr hnp
+  rw [hok]
+  simp only [if_true]
+  have lw : ∀ {f : M Unit}, (∀ s, HdrOnly s (f s).2) → CLay P (liftW ss f).2.w b mb := fun hf =>
+    clay_liftW (clay_hdrOnly h hI (hf ss.w))
+  cases op with
+  | setId v => exact lw (hdrOnly_write _ _ (by show _ + 2 ≤ 12; decide))
+  | setQr b' => exact lw (hdrOnly_setHdr _ _ (by decide))
+  | setAa b' => exact lw (hdrOnly_setHdr _ _ (by decide))
+  | setTc b' => exact lw (hdrOnly_setHdr _ _ (by decide))
+  | setRd b' => exact lw (hdrOnly_setHdr _ _ (by decide))
+  | setRa b' => exact lw (hdrOnly_setHdr _ _ (by decide))
+  | setOpcode v => exact lw (hdrOnly_setHdr _ _ (by decide))
+  | setRcode v => exact lw (hdrOnly_setRcode v)
+  | setExtendedRcode v => exact lw (f := setExtendedRcode v) (hdrOnly_setExtendedRcode v)
+  | setLimit v => exact lw (hdrOnly_setLimit v)
+  | setMode m => exact clay_liftW (clay_setMode m ss.w h (hpm m rfl))
+  | addQuestion n t c =>
+    simp only [step, liftW] at hok ⊢
+    cases hq : addQuestion n t c ss.w with
+    | mk r s1 =>
+      rw [hq] at hok
+      simp only at hok
+      subst hok
+      exact clay_addQuestion n t c ss.w s1 hI h hop hq
+  | addRr sec hn o ty cls ttl rd hv =>
+    simp only [step] at hok ⊢
+    rw [withHv_fst] at hok
+    rw [withHv_w]
+    have hI0 := i_hv ss.w (hv.map (hvGet ss.hvs)) hI
+    have h0 := clay_hv ss.w (hv.map (hvGet ss.hvs)) h
+    cases hq : addRrOp sec (resolveHint ss.hvs hn) o ty cls ttl rd { ss.w with hv := hv.map (hvGet ss.hvs) } with
+    | mk r s1 =>
+      rw [hq] at hok
+      simp only at hok
+      subst hok
+      exact clay_hv _ none (clay_addRrOp sec _ o ty cls ttl rd { ss.w with hv := hv.map (hvGet ss.hvs) } s1 hI0 h0 hop.1 hop.2 hq)
+  | addRrset sec hn o ty cls ttl rds hv =>
+    simp only [step] at hok ⊢
+    rw [withHv_fst] at hok
+    rw [withHv_w]
+    have hI0 := i_hv ss.w (hv.map (hvGet ss.hvs)) hI
+    have h0 := clay_hv ss.w (hv.map (hvGet ss.hvs)) h
+    cases hq : addRrsetOp sec (resolveHint ss.hvs hn) o ty cls ttl rds { ss.w with hv := hv.map (hvGet ss.hvs) } with
+    | mk r s1 =>
+      rw [hq] at hok
+      simp only at hok
+      subst hok
+      exact clay_hv _ none (clay_addRrsetOp sec _ o ty cls ttl rds { ss.w with hv := hv.map (hvGet ss.hvs) } s1 hI0 h0 hop.1 hop.2 hq)
+  | clearRrs => exact clay_liftW (clay_clearRrs ss.w h hI)
+  | setEdns p => exact clay_liftW (clay_setEdns p ss.w h)
+  | setTsig m rr => exact clay_liftW (clay_setTsig m rr ss.w h)
+  | updateTimeSigned t => exact lw (hdrOnly_updateTimeSigned t)
+  | template n fill => exact clay_retemplate h hI n fill _ mkOK_tryFromTemplate
+  | templateSubsequent n fill mac => exact clay_retemplate h hI n fill _ (mkOK_subsequent mac)
+  | getters => exact h
+
+/-- **for all sequences of calls that respect the contract**, in every compression mode -/
+theorem clay_run (ss : Session) (ops : List Op) (b : Body) (mb : MBody) (hI : I ss.w) (h : CLay P ss.w b mb)
+    (hr : Respects ss ops) (hpm : ∀ m, Op.setMode m ∈ ops → P m) :
+    CLay P (run ss ops).1.w (bodyRun b ops (run ss ops).2) (mrun ss mb ops) := by
+  induction ops generalizing ss b mb with
+  | nil => exact h
+  | cons op ops ih =>
+    obtain ⟨hop, hrest⟩ := hr
+    obtain ⟨hnp, hI'⟩ := step_I ss op hI hop
+    have hs' := clay_step ss op b mb hI h hop (fun m hm => hpm m (by rw [hm]; exact List.mem_cons_self))
+    have hpm' : ∀ m, Op.setMode m ∈ ops → P m := fun m hm => hpm m (List.mem_cons_of_mem _ hm)
+    unfold run mrun
+    cases hs : step ss op with
+    | mk r ss' =>
+      rw [hs] at hnp hI' hrest hs'
+      cases r with
+      | panic => exact absurd rfl hnp
+      | ok u =>
+        simp only [] at hs' ⊢
+        have := ih ss' _ _ hI' (by simpa using hs') hrest hpm'
+        cases hrun : run ss' ops with
+        | mk ss'' rs => rw [hrun] at this; simpa [bodyRun] using this
+      | err e =>
+        simp only [] at hs' ⊢
+        have := ih ss' _ _ hI' (by simpa using hs') hrest hpm'
+        cases hrun : run ss' ops with
+        | mk ss'' rs => rw [hrun] at this; simpa [bodyRun] using this
 
 end QV.Writer
